@@ -34,10 +34,11 @@ var externalPure = map[string]bool{
 type effects struct {
 	m    *Model
 	pure map[*types.Func]bool
+	litPure map[*FuncUnit]bool
 }
 
 func computeEffects(m *Model) *effects {
-	ef := &effects{m: m, pure: map[*types.Func]bool{}}
+	ef := &effects{m: m, pure: map[*types.Func]bool{}, litPure: map[*FuncUnit]bool{}}
 	// optimistic start, iterate down
 	for _, u := range m.Units {
 		if u.Lit == nil && u.Obj != nil {
@@ -71,7 +72,11 @@ func (ef *effects) bodyPure(u *FuncUnit) bool {
 			return false
 		}
 		// must be declared inside this function (params included)
-		return v.Pos() >= u.Decl.Pos() && v.Pos() <= u.Decl.End() && !v.IsField()
+		lo, hi := u.Decl.Pos(), u.Decl.End()
+		if u.Lit != nil {
+			lo, hi = u.Lit.Pos(), u.Lit.End()
+		}
+		return v.Pos() >= lo && v.Pos() <= hi && !v.IsField()
 	}
 	ast.Inspect(u.Body, func(n ast.Node) bool {
 		if !pure {
@@ -150,6 +155,18 @@ func (ef *effects) callPure(call *ast.CallExpr) bool {
 				}
 			}
 			return false // unknown
+		}
+	}
+	// a local closure bound once to a variable: pure iff its body is
+	if v := identVar(info, call.Fun); v != nil {
+		if lu := ef.m.LitOfVar[v]; lu != nil {
+			if p, ok := ef.litPure[lu]; ok {
+				return p
+			}
+			ef.litPure[lu] = false // recursion guard
+			p := ef.bodyPure(lu)
+			ef.litPure[lu] = p
+			return p
 		}
 	}
 	name := ef.m.calleeName(call)
